@@ -502,6 +502,24 @@ func init() {
 	reg("bytes.Index", func(fr *frame, a []value) value { return index(fr, seqOf(a[0]), seqOf(a[1])) })
 	reg("bytes.IndexByte", func(fr *frame, a []value) value { return index(fr, seqOf(a[0]), sstr{a[1]}) })
 
+	// ---- encoding/hex
+	reg("encoding/hex.EncodeToString", func(fr *frame, a []value) value {
+		src := seqOf(a[0])
+		out := make(sstr, 0, 2*len(src))
+		hexd := "0123456789abcdef"
+		for _, c := range src {
+			switch b := c.(type) {
+			case uint8:
+				out = append(out, hexd[b>>4], hexd[b&15])
+			case *sym:
+				for _, nib := range []string{"(bvlshr " + b.e + " #x04)", "(bvand " + b.e + " #x0f)"} {
+					out = append(out, &sym{e: fmt.Sprintf("(ite (bvult %s #x0a) (bvadd %s #x30) (bvadd %s #x57))", nib, nib, nib), k: symBV, w: 8, gk: types.Uint8})
+				}
+			}
+		}
+		return normStr(out)
+	})
+
 	// ---- strconv
 	reg("strconv.Itoa", func(fr *frame, a []value) value {
 		switch n := a[0].(type) {
